@@ -661,6 +661,7 @@ type c14h struct {
 	types  map[string]*c14type
 	lg     Logger
 	buf    *bytes.Buffer
+	w      *c14writer
 	idx    int
 	batch  []c14case
 	stop   bool
@@ -671,9 +672,30 @@ type c14h struct {
 
 const c14batch = 32
 
+// c14writer is the output the logger writes to: it keeps the bytes and notes every Write call that does
+// not end at the end of a line (a record handed to the output in pieces can be interleaved with what
+// another writer of the same file or terminal puts there, and a failure between the pieces leaves half a line)
+type c14writer struct {
+	*bytes.Buffer
+	calls, partial int
+	firstPartial   []byte
+}
+
+func (w *c14writer) Write(p []byte) (int, error) {
+	w.calls++
+	if len(p) == 0 || p[len(p)-1] != '\n' {
+		if w.partial == 0 {
+			w.firstPartial = append([]byte(nil), p...)
+		}
+		w.partial++
+	}
+	return w.Buffer.Write(p)
+}
+
 func (h *c14h) newLogger() bool {
 	h.buf = &bytes.Buffer{}
-	lg, err := NewLogger(h.buf, "c14", JSON())
+	h.w = &c14writer{Buffer: h.buf}
+	lg, err := NewLogger(h.w, "c14", JSON())
 	if err != nil {
 		h.c.Infra("NewLogger: %v", err)
 		return false
@@ -686,6 +708,7 @@ func (h *c14h) newLogger() bool {
 // goroutine when it is smaller than the sequence) and returns everything written.
 func (h *c14h) emit(lg Logger, results []scan.Result, capacity int) (out []byte, fault string) {
 	h.buf.Reset()
+	h.w.calls, h.w.partial, h.w.firstPartial = 0, 0, nil
 	ch := make(chan scan.Result, capacity)
 	if capacity >= len(results) {
 		for _, r := range results {
@@ -748,6 +771,8 @@ func (h *c14h) judgeSingle(k c14case) (class, detail string, out []byte, m c14cm
 		return "line-not-terminated", fmt.Sprintf("output does not end in a newline: %q", c14clip(out)), out, m
 	case len(lines) > 1:
 		return "raw-newline-in-record", fmt.Sprintf("one result produced %d lines: %q", len(lines), c14clip(out)), out, m
+	case h.w.partial > 0:
+		return "line-split-across-writes", fmt.Sprintf("the line of %d bytes was handed to the output in %d Write calls, %d of them not ending at the end of the line (first: %d bytes %q)", len(out), h.w.calls, h.w.partial, len(h.w.firstPartial), c14clip(h.w.firstPartial)), out, m
 	}
 	class, detail, m = c14judgeLine(spec, lines[0])
 	return class, detail, out, m
@@ -866,7 +891,7 @@ func (h *c14h) flush() {
 	if ok {
 		var term bool
 		lines, term = c14split(out)
-		ok = term && len(lines) == len(b)
+		ok = term && len(lines) == len(b) && h.w.partial == 0
 	}
 	cms := make([]c14cmp, len(b))
 	for i := 0; ok && i < len(b); i++ {
